@@ -22,13 +22,21 @@ class Ref(Expression):
     def __str__(self):
         return self.name
 
-    def _compile(self, out, flags):
-        if flags.uses_context and not self.is_local:
-            func = Code(f'_ctx.{self.resolved}')
-        else:
-            func = Code(self.resolved)
+    def target(self, flags):
+        resolved = self.resolved
 
-        out += (STATUS, RESULT, POS) << Yield((CALL, func, POS))
+        # Rules are looked up in the context, so that a sub-grammar can override
+        # them. But `super.X` always means the parent of the grammar that
+        # mentions it, and `_super_ctx` is a global of that grammar's module.
+        if (flags.uses_context
+            and not self.is_local
+            and not resolved.startswith('_super_ctx.')):
+            resolved = f'_ctx.{resolved}'
+
+        return Code(resolved)
+
+    def _compile(self, out, flags):
+        out += (STATUS, RESULT, POS) << Yield((CALL, self.target(flags), POS))
 
     def argumentize(self, out, flags):
-        return Code(self.resolved)
+        return self.target(flags)
